@@ -418,7 +418,23 @@ func (sdb *DbSqlite) initJwtKey() error {
 	return nil
 }
 
+// checkPointValues makes sure all point values can be stored. SQLite turns
+// NaN into NULL, which can't be read back.
+func checkPointValues(points data.Points) error {
+	for _, p := range points {
+		if math.IsNaN(p.Value) {
+			return fmt.Errorf("Error: value of point %v:%v is NaN", p.Type, p.Key)
+		}
+	}
+
+	return nil
+}
+
 func (sdb *DbSqlite) nodePoints(id string, points data.Points) error {
+	if err := checkPointValues(points); err != nil {
+		return err
+	}
+
 	points.Collapse()
 
 	sdb.writeLock.Lock()
@@ -559,6 +575,10 @@ NextPin:
 }
 
 func (sdb *DbSqlite) edgePoints(nodeID, parentID string, points data.Points) error {
+	if err := checkPointValues(points); err != nil {
+		return err
+	}
+
 	points.Collapse()
 
 	if nodeID == parentID {
